@@ -11,8 +11,7 @@ func Verif_C03_delivery() {
 		K = 3
 	}
 	verifNote("Established: stream of K frames (2 quick / 3 thorough), each symbolically UPDATE (body length symbolic 0..4077) or KEEPALIVE, then EOF; the first 2 (quick) / 3 (thorough) Read calls return a symbolic number of bytes (every segmentation incl. reads ending inside a header); the handler returns a symbolic Notification at a symbolically chosen call or never")
-	cfg := symConfig()
-	verifAssume(cfg.holdSec >= 3)
+	cfg := concreteConfig()
 	conn := newSymConn("c", nil, 1)
 	var bodies [][]byte
 	for i := 0; i < K; i++ {
@@ -72,8 +71,7 @@ func Verif_C03_delivery_schedules() {
 	}
 	verifDelayBound(d)
 	verifNote("schedule variant: 3 concrete UPDATE frames + KEEPALIVE then a symbolically chosen end (EOF, reset, corrupted header); all schedules of reader / FSM / keep-alive manager goroutines with at most 2 (quick) / 3 (thorough) delays; select arms ready together are always all explored")
-	cfg := symConfig()
-	verifAssume(cfg.holdSec >= 3)
+	cfg := concreteConfig()
 	end := verifChoose("end", 3)
 	mode := 1
 	if end == 1 {
